@@ -5,6 +5,7 @@ from harness.core import *
 from harness import gen
 from harness.props._sp_util import *
 from harness.props import C01, C02, C03, C04
+from harness.props import _c12_util as TW
 
 PID = "C12"
 LEVEL = "proof"
@@ -13,6 +14,7 @@ GLUE_PREAMBLE = ""     # C04 provides d_dtree
 ASSUMPTIONS = [
     "a presentation = permuted rule list, permuted node positions and edge order inside every rule, permuted label indices (label-table insertion order), random label names (hash order of sets), explicit/implicit/mixed ids, permuted domain values together with the factor axes",
     "each presentation's results are mapped back to the canonical indexing and judged in Coq against the canonical grammar's model (C01/C02 check functions); the Viterbi derivation is judged on the presentation itself (C04 check function)",
+    "twin rules (harness/props/_c12_util.py): random specs in which 1..3 rules get a twin with the same lhs and the same edge list but other external nodes (order / choice), an added or dropped isolated node, or nothing changed (duplicate); recursive specs get a forced cycle and the twin is preferably a constant rule of a cyclic nonterminal; each twinned spec is built through {direct objects, JSON dict -> json_to_hrg, hrg_to_json round trip, FGG.copy} x id styles {restarting in every rule, globally distinct, implicit, the same Node/Edge objects shared by all rules (explicit or implicit ids)} with shuffled rule order and call histories (same call twice, another method first), and every result is judged in Coq against the twinned spec's own model (C01/C02; Viterbi by C04, gradients by C03 with ids restarting in every rule); recursive specs whose run with globally distinct ids warns, is infinite or has an unproductive cycle are discarded (input selection only)",
     "gradients: on a subset of the grammars (weights made strictly positive) every presentation's gradient is judged by C03's dual-number check on the presentation itself; by C12_presentation (at the dual semiring) the derivative is invariant",
 ]
 
@@ -107,6 +109,9 @@ def run(tier, seed):
             except Exception as e:
                 violations.append(Violation("gradient computation raised %r on a presentation" % (e,), case=dict(spec=gen.spec_jsonable(spec2), semiring=repr(sr), method=method),
                                             corr="corr:presentation-gradient", call="sum_product(...).backward()"))
+    # twin rules: same lhs, EQUAL edges (ids are only unique inside one rule), different externals / isolated nodes;
+    # every construction path x id style (harness/props/_c12_util.py)
+    tw = TW.twin_stream(tier, seed, nonrec, nonrec_meta, rec, rec_meta, vit, vit_meta, gvals, gmeta, violations, distinct, TW.new_stats())
     total = 0; nk = 0; skipped = 0
     if gvals:
         gcodes, a = C03.run_model_parallel(gvals, seed, 2)
@@ -136,8 +141,8 @@ def run(tier, seed):
         violations.append(Violation("viterbi on a re-written grammar: verdict %d (see C04 codes)" % c, case=case, oracle="C04 oracle",
                                     corr="C12 / C04", failing_input_found=True, call="fggs.viterbi(presentation)"))
     cov = dict(evaluations=total, distinct_nontrivial=len(distinct), presentations=npres, discarded_inconclusive=skipped,
-               rule="random FGG specs (2/3 non-recursive, 1/3 recursive) x %d random presentations each (rule/node/edge order, label-table order, names, id style, domain-value permutations with factor axes) x semiring/method rotating; each presentation's sum_products mapped back and judged against the canonical grammar; distinct_nontrivial = distinct canonical specs (all have >= 1 rule and are presented >= %d ways)" % (k_pres, k_pres),
-               kernel_reevaluated=nk,
+               rule="random FGG specs (2/3 non-recursive, 1/3 recursive) x %d random presentations each (rule/node/edge order, label-table order, names, id style, domain-value permutations with factor axes) x semiring/method rotating; each presentation's sum_products mapped back and judged against the canonical grammar; distinct_nontrivial = distinct canonical specs (all have >= 1 rule and are presented >= %d ways); plus the twin-rule stream (twin_stream: specs with rules of equal lhs and equal edges that differ in externals / isolated nodes, built through every construction path x id style; equal_edge_builds = builds in which two different rules really have EQUAL Edge tuples)" % (k_pres, k_pres),
+               kernel_reevaluated=nk, twin_stream=tw,
                samples=[(nonrec_meta["real"] or rec_meta["real"] or [None])[0]],
                open_items=[
                    "C12_model_perm beyond the Kleene iterates for recursive grammars: C12_presentation holds for every iterate k of any grammar, but its composition with C02 (least fixed point), C09 (elimination order of the linear/Newton solves), C04 (weight of the Viterbi derivation) and C03 (gradients) is not stated as Coq theorems of C12 (see notes/C12P.md)",
@@ -149,6 +154,7 @@ def run(tier, seed):
 def replay(path):
     import fggs
     r = json.load(open(path)); c = r["case"]
+    if "twin" in c: return TW.replay_twin(c)
     if "presentation" not in c or "perm" not in c:
         print("this replay carries no presentation; re-run bin/check C12 quick with the recorded seed"); return 1
     spec = gen.spec_from_json(c["spec"]); spec2 = gen.spec_from_json(c["presentation"])
@@ -190,7 +196,7 @@ def replay(path):
 
 MANIFEST = dict(
     level="proof",
-    text="Coq: the definition of the sum-product (sum over derivation trees; Kleene iterates) is invariant under permuting the rule list, the edge list and the node numbering of every rule, and equivariant under renumbering edge/node labels and permuting the values of every domain together with the factor axes (each separately and composed: C12_presentation; carried to tree_sum, to the sum over all derivations of non-recursive grammars and to the code-shaped driver with any dependency-respecting component order: C12_model_presentation, C12_scc_order_irrelevant), in every commutative semiring, and C01/C02 tie the code's result to that definition. Metamorphic correspondence: several random presentations of each generated FGG (rule/node/edge order, label-table order, names, id style, domain-value permutations) are run through sum_products / viterbi and every result, mapped back, is judged in Coq against the canonical grammar's model.",
+    text="Coq: the definition of the sum-product (sum over derivation trees; Kleene iterates) is invariant under permuting the rule list, the edge list and the node numbering of every rule, and equivariant under renumbering edge/node labels and permuting the values of every domain together with the factor axes (each separately and composed: C12_presentation; carried to tree_sum, to the sum over all derivations of non-recursive grammars and to the code-shaped driver with any dependency-respecting component order: C12_model_presentation, C12_scc_order_irrelevant), in every commutative semiring, and C01/C02 tie the code's result to that definition. Metamorphic correspondence: several random presentations of each generated FGG (rule/node/edge order, label-table order, names, id style, domain-value permutations) are run through sum_products / viterbi and every result, mapped back, is judged in Coq against the canonical grammar's model. Twin rules (same lhs, equal edges because ids restart in every rule or objects are shared, different externals / isolated nodes) are generated separately and built through every constructor path and id style; Coq: C12_rule_appended (every rule of the list contributes its own value), C12_twin_rules_not_interchangeable_* (a rule is not determined by lhs and edges).",
     note="Trusted: Coq kernel, extraction cross-checked by vm_compute, the harness's presentation transform and back-mapping; Python hash-order variation is induced by random label names within one interpreter.",
     technique="Coq invariance theorems + metamorphic model/implementation correspondence",
     design_ref="DESIGN.md section 6, C12")
